@@ -331,6 +331,31 @@ theorem drivers_counts_mirror (ns : Bytes) (now fuel : Nat) (ta tb : Tables.T)
 
 end Session
 
+namespace Session
+open Ranger Replica
+
+/-- **A declined request, both ends.** When the accept callback declines with reason `r`: the
+acceptor writes exactly one `Abort(r)` frame, reports `aborted`, and its store is untouched
+(whatever else the peer sends); the initiator, reading that frame, reports `RemoteAbort(r)` and its
+store is untouched as well. -/
+theorem declined_exchange {S : Type} (actorA actorB : Actor S) (accept : Bytes → Accept) (ns : Bytes) (r : Nat)
+    (hrej : accept ns = .reject r) (m0 : Message) (rest : List Item) (e e' : StreamEnd) (sa sb : S)
+    (hinit : actorA.initial sa ns = some m0) :
+    let bob := bobRun actorB accept (.frame (.init ns m0) :: rest) e sb
+    let alice := aliceRun actorA ns (bob.written.map .frame) e' sa
+    bob.result = .aborted ns r ∧ bob.written = [.abort r] ∧ bob.store = sb ∧ bob.calls = 0 ∧
+    (match alice.result with | .remoteAbort r' => r' = r | _ => False) ∧
+    alice.store = sa ∧ alice.written = [.init ns m0] ∧ alice.calls = 0 := by
+  have hb : bobRun actorB accept (.frame (.init ns m0) :: rest) e sb =
+      { result := .aborted ns r, written := [] ++ [.abort r], progress := some {}, store := sb, calls := 0 } := by
+    simp only [bobRun, bobLoop, hrej]
+  simp only [hb, List.nil_append, List.map_cons, List.map_nil]
+  refine ⟨trivial, trivial, trivial, trivial, ?_⟩
+  simp only [aliceRun, hinit, aliceLoop]
+  exact ⟨trivial, trivial, trivial, trivial⟩
+
+end Session
+
 /-! ### non-vacuity: a concrete exchange that completes (two replicas with one entry each) -/
 
 namespace Session
